@@ -7,6 +7,11 @@ INV = ["Accounting", "WrittenOnce", "NeverWrittenWhileLive", "RecordFracIsLive",
 
 def main(tier, replay=None):
     if replay:
+        import json
+        with open(replay) as fh:
+            if json.load(fh).get("kind") == "crash":
+                from harness.checks import c08
+                return c08.replay_case(replay, pid=PID)
         return S.replay_main(PID, replay)
     sc = S.SystemCheck(PID, tier)
     q = tier == "quick"
@@ -28,6 +33,9 @@ def main(tier, replay=None):
     # the unmodified scheduler() with a real process pool and the real TurtleMD engine (8 ensembles, wire-fencing weights that are
     # not 0/1, several workers so that some paths are busy when the fractions are recorded), killed and continued
     sc.real_pool_runs(S.turtle_pool_specs(sc.chk.seed + 12, 6 if q else 40), label="real-pool")
+    # "across restarts": the main process killed at every effect on the data file and the restart file, restarted, driven to the end
+    from harness.checks import c08
+    c08.weights_across_crashes(sc, PID, q)
     sc.chk.assumptions += ["floating-point fractional weights are read as the nearest rational with denominator <= 10^6 (checked to 1e-9); "
                            "the data file and restart.toml are parsed from their 20-digit decimal strings"]
     return sc.finish("every Complete event of every replayed behaviour / recorded run is checked for the four credit clauses, the row and "
